@@ -308,6 +308,55 @@ def write_replay(prop, sig, shard_name, info):
     return rel
 
 
+GRACE = {"quick": 420, "thorough": 2400}  # seconds past the soft wall cap before a silent worker is given up
+
+
+def _shard_child(arg, conn):
+    try:
+        conn.send(run_shard(arg))
+    finally:
+        conn.close()
+
+
+def run_parallel(args, jobs, deadline):
+    """one forked process per shard, each with a pipe of its own (no lock is shared between workers, so a worker
+    that dies or stalls can neither block the others nor lose their results); a shard whose process ends without a
+    result, or is still silent at the deadline, is run again in this process"""
+    from multiprocessing.connection import wait
+
+    ctx = mp.get_context("fork")
+    todo, live, results, again = list(args), {}, [], []
+    while todo or live:
+        while todo and len(live) < jobs:
+            a = todo.pop(0)
+            rd, wr = ctx.Pipe(duplex=False)
+            pr = ctx.Process(target=_shard_child, args=(a, wr), daemon=True)
+            pr.start()
+            wr.close()
+            live[rd] = (pr, a)
+        left = deadline - time.time()
+        if left <= 0:
+            for rd, (pr, a) in live.items():
+                pr.kill()
+                pr.join(10)
+                again.append(a)
+            again += todo
+            live, todo = {}, []
+            break
+        for rd in wait(list(live), timeout=min(left, 30)):
+            pr, a = live.pop(rd)
+            try:
+                results.append(rd.recv())
+            except (EOFError, OSError):
+                again.append(a)  # the process ended without reporting (killed by a limit, say)
+            rd.close()
+            pr.join(30)
+    for a in again:
+        print(f"note: shard {a[1]} gave no result from its worker process; running it in the main process", file=sys.stderr, flush=True)
+        results.append(run_shard(a[:4] + (time.time() + 600,)))
+    return results
+
+
 def regress_cases(prop):
     d = os.path.join(VERIF, "replay", prop)
     out = []
@@ -355,9 +404,7 @@ def main_check(prop, tier, seed, only=None, jobs=None):
     if jobs == 1 or len(args) <= 1:
         results = [run_shard(a) for a in args]
     else:
-        ctx = mp.get_context("fork")
-        with ctx.Pool(min(jobs, len(args))) as pool:
-            results = pool.map(run_shard, args, chunksize=1)
+        results = run_parallel(args, min(jobs, len(args)), t_end + GRACE[tier])
 
     exhaustive_all = bool(results)
     for r in sorted(results, key=lambda r: r["shard"]):
